@@ -18,17 +18,17 @@ func runC04(w *World) *Result {
 	r := NewResult("C04")
 	r.Explanation = "Decides evaluation order, multiplicity and eagerness structurally: (proto) for every node kind the driver's handler – read as the language of its success paths over the events eval(child accessor) / conv(Converter method), error exits cut, loops unrolled, infeasible paths of nil/emptiness flags pruned – is included in a regular specification written from Go's left-to-right operand order, the README's eager-condition caveat and the Converter bracket contract: every child accessor exactly once, operands of && / || both unconditionally, all conditions of an if-chain before IfStart, loop condition after the increment and before the body; (once) no parsed expression that can have effects is stored into two evaluated slots of one node; (immediate) converter methods emit their effect lines before returning and the references they return contain no command substitution, so an effect can neither move to the use site nor be duplicated; (dispatch) every node tag the parser constructs has a handler arm asserting the matching type."
 	r.NotDecided = "what the effects print at run time; the number of evaluations of a switch tag and of a range operand (excluded by the property)."
-	r.Rule("R-C04-proto", "driver handlers stay within the per-node event specification", 28)
+	r.Rule("R-C04-proto", "driver handlers stay within the per-node event specification", 12)
 	r.Rule("R-C04-once", "no effectful parsed expression is stored into two evaluated slots of one node", 10)
-	r.Rule("R-C04-immediate", "returned references carry no deferred command text; effect lines are emitted inside the method", 30)
-	r.Rule("R-C04-dispatch", "every constructed node tag has a handler arm of the matching type", 25)
+	r.Rule("R-C04-immediate", "returned references carry no deferred command text; effect lines are emitted inside the method", 12)
+	r.Rule("R-C04-dispatch", "every constructed node tag has a handler arm of the matching type", 10)
 	ProtoRule(w, r, "R-C04-proto", nil)
 	DispatchRule(w, r, "R-C04-dispatch")
 	c04Once(w, r)
 	StaleListRule(w, r, "R-C04-once")
 	r.Rule("R-C04-wiring", "every Converter parameter is fed from the node child it stands for (operands, names and flags are not crossed)", 30)
 	WiringRule(w, r, "R-C04-wiring", nil)
-	r.Rule("R-C04-srcorder", "slots evaluated in a fixed order by the driver hold expressions parsed in that order", 12)
+	r.Rule("R-C04-srcorder", "slots evaluated in a fixed order by the driver hold expressions parsed in that order", 5)
 	c04SrcOrder(w, r)
 	r.Rule("R-C04-eager", "the branches of an if-chain hold the block parser's results: no later branch is nested into an earlier one (all conditions are evaluated with the chain)", 3)
 	c04Bodies(w, r, "R-C04-eager")
